@@ -759,6 +759,16 @@ func loopHeaderOf(blk *ssa.BasicBlock) *ssa.BasicBlock {
 		if !h.Dominates(blk) {
 			continue
 		}
+		// a loop header is the target of a back edge: some predecessor is dominated by it
+		isHeader := false
+		for _, pr := range h.Preds {
+			if h.Dominates(pr) {
+				isHeader = true
+			}
+		}
+		if !isHeader {
+			continue
+		}
 		// is there a back edge t->h with t reachable from blk without passing h?
 		stop := map[*ssa.BasicBlock]bool{h: true}
 		par := reach([]*ssa.BasicBlock{blk}, nil, stop)
@@ -788,11 +798,17 @@ func loopHeaderOf(blk *ssa.BasicBlock) *ssa.BasicBlock {
 func (p *Program) LoopIterationsPass(h *ssa.BasicBlock, through []Edge) (bool, []string) {
 	av := EdgeSet{}
 	av.addAll(through)
+	body := loopBody(h)
 	for i, s := range h.Succs {
-		if av[Edge{h, i}] {
+		if av[Edge{h, i}] || !body[s] {
 			continue
 		}
 		stop := map[*ssa.BasicBlock]bool{h: true}
+		for _, b := range h.Parent().Blocks {
+			if !body[b] {
+				stop[b] = true
+			}
+		}
 		par := reach([]*ssa.BasicBlock{s}, av, stop)
 		if s == h {
 			return false, []string{fmt.Sprintf("self loop at block %d", h.Index)}
@@ -802,4 +818,29 @@ func (p *Program) LoopIterationsPass(h *ssa.BasicBlock, through []Edge) (bool, [
 		}
 	}
 	return true, nil
+}
+
+// loopBody: the natural loop of header h — blocks dominated by h from which h is reachable
+// along blocks dominated by h.
+func loopBody(h *ssa.BasicBlock) map[*ssa.BasicBlock]bool {
+	body := map[*ssa.BasicBlock]bool{h: true}
+	// backward search from the back-edge sources
+	var work []*ssa.BasicBlock
+	for _, pr := range h.Preds {
+		if h.Dominates(pr) && !body[pr] {
+			body[pr] = true
+			work = append(work, pr)
+		}
+	}
+	for len(work) > 0 {
+		b := work[len(work)-1]
+		work = work[:len(work)-1]
+		for _, pr := range b.Preds {
+			if !body[pr] && h.Dominates(pr) {
+				body[pr] = true
+				work = append(work, pr)
+			}
+		}
+	}
+	return body
 }
